@@ -9,12 +9,15 @@ struct HistCase
     uint8_t stream{0};
     std::vector<EncCase> history;
     EncCase last;
+    uint32_t bulkFrames{0};  // > 0: the history starts with one call of that many one-byte packets at max = 25 (one frame each), which
+                             // brings the 16-bit sequence counter - the one state that legitimately survives - next to its wrap
     void io(Ar& a)
     {
         a.num("dev", dev);
         a.num("stream", stream);
         a.vec("history", history);
         last.io(a);
+        a.optionalNum("bulkFrames", bulkFrames);
     }
 };
 
@@ -25,6 +28,17 @@ static Verdict runCase(const HistCase& c, Info& info)
     a.setStreamId(c.stream);
     b.setDeviceId(c.dev);
     b.setStreamId(c.stream);
+    if (c.bulkFrames)
+    {
+        PacketRecipe r;
+        r.kind = rkGeneric;
+        r.msgType = 1;
+        r.ptype = 0x20;
+        r.len = 1;
+        std::vector<lib::Packet> bulk(c.bulkFrames, buildPacket(r, 1));
+        a.encode(bulk.begin(), bulk.end(), lib::DataContext{0, 25});
+        info.tag("history_brings_counter_next_to_wrap");
+    }
     for (const auto& h : c.history)
     {
         auto batch = buildBatch(h);
@@ -83,7 +97,7 @@ static Verdict runCase(const HistCase& c, Info& info)
             info.tag("final_batch_has_packet_with_zero_length_payload");
             break;
         }
-    info.nontrivial = !c.history.empty() && (k.segmented || k.mixedTypes);
+    info.nontrivial = (!c.history.empty() || c.bulkFrames) && (k.segmented || k.mixedTypes);
     return Verdict::pass();
 }
 
@@ -106,6 +120,12 @@ static rc::Gen<HistCase> genCase(int tier)
             // one in six history calls ends with an exception thrown by the caller's iterator part-way through the batch
             if (!c.history.back().packets.empty() && *range<int>(0, 5) == 0)
                 c.history.back().abortAfter = *range<int32_t>(0, static_cast<int32_t>(c.history.back().packets.size()) - 1);
+        }
+        // one case in twelve: the counter stands a few frames before 65535 / 65536 (or a multiple) when the final batch starts
+        if (*range<int>(0, 11) == 0)
+        {
+            c.bulkFrames = *rc::gen::weightedOneOf<uint32_t>({{4, range<uint32_t>(65515, 65536)}, {1, range<uint32_t>(131050, 131072)}});
+            c.history.resize(std::min<size_t>(c.history.size(), 1));
         }
         p.allowEmpty = false;
         p.boundaryWeight = 8;
